@@ -205,6 +205,13 @@ pub enum Dest {
     /// the entry out earlier and now asks for it at the same path again); like `Absent` when the
     /// content is not a regular file
     LinkOfContent,
+    /// an existing regular file that holds the entry's bytes followed by more (an older, longer
+    /// version of the same thing); like `Existing` when the content is not a regular file
+    ExistingSuperset,
+    /// an existing symbolic link that resolves to the entry's own content file
+    SymlinkToContent,
+    /// an existing (empty) directory: nothing can be extracted onto it
+    Directory,
 }
 
 /// Where a writer is abandoned (C14).
